@@ -30,6 +30,7 @@ func init() {
 		hp.p.ReportCodecs[llotypes.ReportFormatEVMPremiumLegacy] = evm.NewReportCodecPremiumLegacy(logger.Nop(), 1)
 		hp.p.ReportCodecs[llotypes.ReportFormatEVMABIEncodeUnpacked] = evm.NewReportCodecEVMABIEncodeUnpacked(logger.Nop(), 1)
 		hp.p.ReportCodecs[llotypes.ReportFormat(fmtStreamlinedHarness)] = evm.NewReportCodecStreamlined()
+		hp.p.ReportCodecs[llotypes.ReportFormatJSON] = llo.JSONReportCodec{}
 		ob, err := hp.p.OutcomeCodec.Encode(jOutcome(in["outcome"]))
 		if err != nil {
 			return resErr("encode-outcome", err)
@@ -116,5 +117,40 @@ func genC11Evm(g *G) {
 		o := J{"stage": "production", "ts": S(w.now + 5_000_000_000), "defs": []any{J{"id": "7", "def": def}},
 			"va": []any{J{"id": "7", "va": S(w.now)}}, "aggs": aggs}
 		g.EmitImpl(J{"op": "fuzz.llo.reports.evm", "cfg": w.cfgJ(), "seqNr": 3, "outcome": o, "telemetry": g.R.Intn(2) == 0}, "reports-real-evm-codecs")
+	}
+	// timestamped aggregates nested 1..4 levels deep, through the real JSON codec (which prints every value as
+	// text) and the real EVM codecs: the outcome decoder must refuse what is too deep, never hand out a value
+	// with a missing inner value
+	for depth := 1; depth <= 4; depth++ {
+		for _, format := range []int{int(llotypes.ReportFormatJSON), 4, fmtStreamlinedHarness} {
+			for _, ver := range []uint32{0, 1} {
+				w := newWorld(g)
+				w.version, w.interval, w.hasPred = ver, 0, false
+				if ver == 1 {
+					w.interval = 1
+				}
+				var v llo.StreamValue = llo.ToDecimal(decimal.New(1234, -2))
+				for d := 0; d < depth; d++ {
+					v = &llo.TimestampedStreamValue{ObservedAtNanoseconds: uint64(1000 + d), StreamValue: v}
+				}
+				opts := ""
+				if format != int(llotypes.ReportFormatJSON) {
+					opts = fmt.Sprintf(`{"baseUSDFee":"1.5","expirationWindow":3600,"feedID":%q,"abi":[[{"type":"uint64"},{"type":"int192"}]]}`, feed)
+					if format == fmtStreamlinedHarness {
+						opts = `{"abi":[[{"type":"uint64"},{"type":"int192"}]]}`
+					}
+				}
+				streams := []any{J{"sid": "1", "agg": "1"}}
+				aggs := []any{J{"sid": "1", "agg": "1", "v": svJ(v)}}
+				if format == 4 {
+					streams = []any{J{"sid": "2", "agg": "1"}, J{"sid": "3", "agg": "1"}, J{"sid": "1", "agg": "1"}}
+					aggs = append(aggs, J{"sid": "2", "agg": "1", "v": svJ(llo.ToDecimal(decimal.New(2, 0)))}, J{"sid": "3", "agg": "1", "v": svJ(llo.ToDecimal(decimal.New(3, 0)))})
+				}
+				base := uint64(1_700_000_000_000_000_000)
+				o := J{"stage": "production", "ts": S(base + 5_000_000_000), "defs": []any{J{"id": "7", "def": J{"format": S(format), "streams": streams, "opts": hexs([]byte(opts))}}},
+					"va": []any{J{"id": "7", "va": S(base)}}, "aggs": aggs}
+				g.EmitImpl(J{"op": "fuzz.llo.reports.evm", "cfg": w.cfgJ(), "seqNr": 3, "outcome": o, "telemetry": depth%2 == 0}, "reports-nested-aggregate", fmt.Sprintf("depth=%d", depth))
+			}
+		}
 	}
 }
